@@ -343,7 +343,7 @@ func c18ResumedDFS(tier string) *engine.DFS {
 		c18OnlyResumed = true
 		defer func() { c18OnlyResumed = false }()
 		c18BodyOpt(x, false)
-	}, Procs: 8, WorkerProcs: 4, GCEvery: 20, ShardDepth: 2, MaxDeviations: 0, MaxPoints: 60, HangTimeout: 60 * time.Second}
+	}, Procs: 8, WorkerProcs: 1, GCEvery: 50, ShardDepth: 2, MaxDeviations: 0, MaxPoints: 60, HangTimeout: 60 * time.Second} // single-P workers, collections only between executions: frame pooling is deterministic
 }
 
 // c18BodyOpt with onlyFailing explores just the non-upgrading responses without cuts: the part of the
@@ -371,6 +371,11 @@ func c18BodyOpt(x *engine.X, onlyFailing bool) {
 		nfr = x.Pick(3, "piggy-backed frames")
 	}
 	prior := 0
+	if onlyFailing {
+		// C13's clause on a stream that has already had a session: a handshake that fails there must close the
+		// connection it has just dialled, not something left over from the earlier session
+		prior = []int{0, 2}[x.Pick(2, "fresh stream / a stream that had an established session before")]
+	}
 	if !onlyFailing {
 		if v.name == "conforming" {
 			// for the conforming response the history of the stream is a free choice, so that it combines with every
@@ -397,7 +402,7 @@ func c18BodyOpt(x *engine.X, onlyFailing bool) {
 	})
 	var keys []string
 	if prior > 0 {
-		pv := vs[0]
+		pv := hsVariants()[0]
 		if prior == 1 {
 			pv = hsVariant{"prior-fail", 400, "", "", [3]int{0, 1, 2}, 0, 0}
 		}
@@ -464,6 +469,12 @@ func c18BodyOpt(x *engine.X, onlyFailing bool) {
 		conns = conns[:0]
 	}
 	sc := hsScript{variant: v, frames: hsFrames(nfr)}
+	// on a stream that had a session before, the first frame sent with the response is a Ping: reading it queues a
+	// Pong (a pooled frame), which must go out ahead of the first message — with the ping's payload, not the message's
+	pingFirst := nfr >= 1 && prior >= 2
+	if pingFirst {
+		sc.frames[0] = wsref.Frame{Fin: true, Op: wsref.OpPing, Payload: []byte("ping-of-the-new-session")}
+	}
 	total := len(v.render(strings.Repeat("A", 24))) + func() int {
 		n := 0
 		for _, f := range sc.frames {
@@ -570,12 +581,19 @@ func c18BodyOpt(x *engine.X, onlyFailing bool) {
 			}
 		}
 		if !sc.closeAt {
-			calls := 0
-			ws.AsyncNextFrame(func(err error, f websocket.Frame) { calls++ })
-			ioc.PollOne()
-			ioc.PollOne()
-			if calls != 0 {
-				x.Fail("handshake/bytes-invented", "a further frame was delivered although the server sent only %d", len(sc.frames))
+			invented := func() {
+				calls := 0
+				ws.AsyncNextFrame(func(err error, f websocket.Frame) { calls++ })
+				ioc.PollOne()
+				ioc.PollOne()
+				if calls != 0 {
+					x.Fail("handshake/bytes-invented", "a further frame was delivered although the server sent only %d", len(sc.frames))
+				}
+			}
+			if !pingFirst {
+				invented() // (starting a read flushes what is queued: with a Pong queued this comes after the write below, so that the Pong and the message are pending together)
+			} else {
+				defer invented()
 			}
 			// "behaves like a fresh one", outbound side: the first thing the server receives after the request is the
 			// first message the application writes on this session — nothing an earlier session left behind
@@ -597,6 +615,9 @@ func c18BodyOpt(x *engine.X, onlyFailing bool) {
 				x.Fail("handshake/session-write/error", "the first write of the session failed: %v (prior: %s)", werr, c18Priors[prior])
 			}
 			want := 6 + len(msg) // header 2 + mask 4 + payload
+			if pingFirst {
+				want += 6 + len("ping-of-the-new-session")
+			}
 			var got []byte
 			buf := make([]byte, 4096)
 			for len(got) < want && kern.AwaitReadReady(res.conn, settleGuard) {
@@ -607,6 +628,16 @@ func c18BodyOpt(x *engine.X, onlyFailing bool) {
 				got = append(got, buf[:n]...)
 			}
 			frames, rest, _ := wsref.ParseAll(got, 1<<20)
+			if pingFirst {
+				if len(frames) < 1 || frames[0].Op != wsref.OpPong || string(frames[0].Payload) != "ping-of-the-new-session" || !frames[0].Masked {
+					var desc []string
+					for _, f := range frames {
+						desc = append(desc, fmt.Sprintf("op=%d len=%d %q", f.Op, len(f.Payload), clip(f.Payload)))
+					}
+					x.Fail("handshake/session-not-fresh/outbound/pong", "the new session's server sent a Ping with the response, the client read it and then wrote one text message; the server received [%s] — expected the Pong echoing the ping, then the message (prior: %s)", strings.Join(desc, "; "), c18Priors[prior])
+				}
+				frames = frames[1:]
+			}
 			if len(frames) < 1 || frames[0].Op != wsref.OpText || string(frames[0].Payload) != string(msg) || !frames[0].Masked || len(frames) > 1 || len(rest) > 0 {
 				var desc []string
 				for _, f := range frames {
